@@ -56,8 +56,25 @@ def discharge(vc, timeout_ms=10000, use_cvc5=True, keep_model=True):
         v.secs = time.time() - t0
         return v
     t0 = time.time()
+    # first a short attempt with everything (most obligations are easy)
+    s1 = z3.Solver()
+    s1.set("timeout", min(1500, max(300, timeout_ms // 6)))
+    for c in vc.pc:
+        s1.add(c)
+    s1.add(z3.Not(vc.goal))
+    try:
+        r1 = s1.check()
+    except z3.Z3Exception:
+        r1 = z3.unknown
+    if r1 == z3.unsat:
+        return Verdict(vc.name, "proved", "z3", time.time() - t0, meta=vc.meta, smt_size=len(s1.sexpr()))
+    if r1 == z3.unknown and use_cvc5:
+        v = _cvc5(vc, s1, 3)
+        if v is not None:
+            v.secs = time.time() - t0
+            return v
     # staged relevance filtering: dropping hypotheses is sound for `unsat`; only the full set may answer `sat`
-    if len(vc.pc) > 6:
+    if len(vc.pc) > 6 and r1 != z3.sat:
         for hops in (0, 1, 2):
             sub = _relevant(vc.pc, vc.goal, hops)
             if len(sub) >= len(vc.pc):
